@@ -542,7 +542,7 @@ func (c *cctx) evalSelector(e *ast.SelectorExpr) cval {
 	name := e.Sel.Name
 	if strings.HasPrefix(name, "G_") {
 		g := strings.TrimPrefix(name, "G_")
-		return c.ghostField(base, g, e)
+		return c.ghostField(base, g, e.X)
 	}
 	if base.t == nil {
 		c.fail("field %s of untyped value", name)
@@ -644,6 +644,20 @@ func (c *cctx) ghostField(base cval, g string, at ast.Expr) cval {
 	if bx, isBx := base.v.(Bx); isBx {
 		// a local struct that lives in the heap (address taken): the object is its cell
 		base = cval{Sc{bx.P}, base.t}
+	}
+	if _, isSt := base.v.(St); isSt {
+		// an embedded struct value reached through its owner object: the ghost
+		// lives at the address of that field, fieldaddr(owner, field)
+		switch a := unparen(at).(type) {
+		case *ast.Ident:
+			if b, ok := c.env["#addr:"+a.Name]; ok {
+				base = cval{b.v, base.t}
+			}
+		case *ast.SelectorExpr:
+			if ov, ok := c.eval(a.X).v.(Sc); ok && ov.T.S.Eq(IntSort) {
+				base = cval{Sc{App(fieldAddrFn, ov.T, funcID("field:"+a.Sel.Name))}, base.t}
+			}
+		}
 	}
 	id, ok := base.v.(Sc)
 	if !ok || !id.T.S.Eq(IntSort) {
